@@ -92,6 +92,23 @@ def run(ctx):
         if len(allrecs) > 30000:
             flush(ctx, allrecs, meta)
             allrecs, meta = [], []
+    # a merge function that gives up late: one key held by 3..5 sources, the failing token in each of them in turn (the fold has
+    # already produced intermediate values when the failure comes), keys before and after it
+    for j in range(10 if ctx.quick() else 40):
+        nsrc = 3 + j % 3
+        shared = rng.choice([b"k", b"kk", b"kkk", b""])
+        fam = []
+        for si in range(nsrc):
+            src = [(shared, [100 + si])]
+            if rng.random() < 0.6:
+                src.append((shared + b"z" + bytes([si]), [200 + si]))
+            if shared and rng.random() < 0.5:
+                src.insert(0, (b"", [300 + si]) if si == 0 else (bytes([si]), [300 + si]))
+            fam.append(sorted(src))
+        recs = one_family(ctx, b, 5000 + j, fam, 1, 0, variants[j % 4], failtok=100 + j % nsrc)
+        if recs is not None:
+            allrecs += recs
+            ctx.add("late_failing_merges", 1)
     flush(ctx, allrecs, meta)
     wide_families(ctx, b)
     merge_tool(ctx, b)
